@@ -209,6 +209,18 @@ def r5(ctx: RuleCtx) -> None:
             rs = [n for s in restore.get(id(f), []) for n in cfg.stmt_nodes(s)]
             if not at or not sv:
                 raise Undecided(f'{fq}: the narrowing site or the read that saves the project range is not in the control-flow graph')
+            # (d) the condition range is per condition: between two uses of self.tmp_meson_version (next branch of the same
+            #     if/elif chain) it must have been reset, otherwise a branch without a version test inherits the previous one's range
+            resets = [n for n in cfg.nodes if n.kind == 'stmt' and isinstance(n.ast, ast.Assign) and any(attr_chain(t) == f'self.{COND}' for t in n.ast.targets)
+                      and isinstance(n.ast.value, ast.Constant) and n.ast.value.value is None]
+            if resets:
+                for a in at:
+                    ctx.require(cfg.dominated_by_any(a, resets), f'{fq}: the condition range is reset before the condition is evaluated', mod, fq, 'condition range reset',
+                                f'`{short(site)}` uses self.{COND} on a path on which it was not reset to None first', site)
+                    stale = cfg.can_reach(a, a, avoid=resets)
+                    ctx.require(not stale, f'{fq}: the condition range is reset between two branches', mod, fq, 'condition range reset per branch',
+                                f'from `{short(site)}` the next branch of the chain is reached without resetting self.{COND}: a branch whose condition has no '
+                                f'version test is narrowed by the previous branch\'s range', site)
             sinks = [cfg.exit_return, cfg.exit_raise] + sv
             for a in at:
                 ctx.require(cfg.dominated_by_any(a, sv), f'{fq}: the project range is saved before it is narrowed', mod, fq, site,
@@ -296,3 +308,50 @@ def r6(ctx: RuleCtx) -> None:
                         f'`{short(parents.get(id(subject), subject), 90)}`: the 3-tuple returned by version_compare_many is used as a truth value ({how}); a non-empty tuple is always '
                         f'true, so the constraint list "holds" whatever the version - index the verdict with [0]', c)
     ctx.floor('call sites of version_compare_many', sites, 1)
+
+
+# ---------------------------------------------------------------------------------------------------------
+# C19.R7 — the verdict handed to the build file.  The method that records the condition range
+# (`<interpreter>.tmp_meson_version = version_check_to_range(..)`) must answer with the verdict of version_compare_many:
+# the Range is only a superset of the satisfying versions ('!=' removes at most an extremum), so membership in it is
+# not "every constraint holds" (K3 must-flow of the returned value; positive evidence only).
+# ---------------------------------------------------------------------------------------------------------
+
+STRING = 'mesonbuild/interpreter/primitives/string.py'
+
+
+def r7(ctx: RuleCtx) -> None:
+    mod = ctx.repo.module(STRING)
+    roles = Roles(mod)
+    n = 0
+    for q, fn in roles.funcs.items():
+        if not any(isinstance(st, ast.Assign) and any((attr_chain(t) or '').endswith('.' + COND) for t in st.targets) for st in walk_no_nested(fn, include_root=False)):
+            continue
+
+        def resolve(e: ast.AST, depth: int = 0) -> ast.AST:
+            while isinstance(e, ast.Name) and depth < 5:
+                ds = roles.defs(fn).get(e.id) or []
+                if len(ds) != 1 or ds[0] is None:
+                    break
+                e, depth = ds[0], depth + 1
+            return e
+        for ret in [x for x in walk_no_nested(fn, include_root=False) if isinstance(x, ast.Return) and x.value is not None]:
+            v = resolve(ret.value)
+            while isinstance(v, ast.Call) and norm(v.func) == 'bool' and len(v.args) == 1:
+                v = resolve(v.args[0])
+            if isinstance(v, ast.Subscript) and isinstance(v.slice, ast.Constant) and v.slice.value == 0:
+                inner = resolve(v.value)
+                if isinstance(inner, ast.Call) and (attr_chain(inner.func) or '').split('.')[-1] == 'version_compare_many':
+                    n += 1
+                    ctx.ok(f'{q}: answers with the verdict of version_compare_many')
+                    continue
+            if isinstance(v, ast.Compare) and len(v.ops) == 1 and isinstance(v.ops[0], (ast.In, ast.NotIn)):
+                rng = resolve(v.comparators[0])
+                if isinstance(rng, ast.Call) and (attr_chain(rng.func) or '').split('.')[-1] == 'version_check_to_range':
+                    n += 1
+                    ctx.violation(mod, q, 'range membership returned as the verdict', f'`{norm(ret)}` answers with membership in the range built by version_check_to_range; that range is '
+                                  f'only a superset of the satisfying versions (a `!=` check removes at most an extremum), so e.g. version 1.5 "satisfies" [">=1.0", "!=1.5"]', ret)
+                    continue
+            raise Undecided(f'{q}: cannot trace the returned value {short(ret)} to version_compare_many')
+    if not n:
+        raise Undecided(f'{STRING}: no method records the condition range (written differently)')
